@@ -96,7 +96,7 @@ class B2BInst:
     FMT = "go, addr, len, size, burst, id, beat.ready  (request fields used only when the master holds nothing)"
 
     def __init__(self, name, aw=12, caps=(FIXED, INCR, WRAP), hold=True, id_width=2, box=None, legal_only=False,
-                 shard=None):
+                 shard=None, version="axi4"):
         from litex.soc.interconnect.axi.axi_full import AXIBurst2Beat, ax_description
         from litex.soc.interconnect.axi.axi_stream import AXIStreamInterface
         self.name = name
@@ -104,7 +104,10 @@ class B2BInst:
         self.caps = set(caps)
         self.hold = hold
         self.id_width = id_width
-        self.burst = AXIStreamInterface(layout=ax_description(aw), id_width=id_width)
+        self.version = version
+        self.size_max = 7 if version == "axi4" else 15
+        self.len_max = 255 if version == "axi4" else 15
+        self.burst = AXIStreamInterface(layout=ax_description(aw, version=version), id_width=id_width)
         self.beat = AXIStreamInterface(layout=[("addr", aw)], id_width=id_width)
         self.module = AXIBurst2Beat(self.burst, self.beat, capabilities=self.caps)
         self.netlist = HeldNetlist(Netlist(self.module))
@@ -185,6 +188,8 @@ class B2BInst:
         kind = rng.random()
         bt = rng.choice((FIXED, INCR, INCR, WRAP, WRAP)) if kind < 0.97 or self.legal_only else RESERVED
         size = rng.randint(0, 7)
+        if self.size_max > 7 and rng.random() < 0.3:
+            size = rng.randint(8, self.size_max)      # AXI3 port: 4-bit size, 1 << size overflows the 12-bit beat_size
         nb = 1 << size
         page = rng.randrange(1 << (aw - 12)) << 12 if aw > 12 else 0
         if rng.random() < 0.3:
@@ -209,7 +214,7 @@ class B2BInst:
             ln = rng.choice((0, 1, 15, rng.randint(0, 255)))
             addr = rng.randrange(1 << aw)
         rid = rng.randrange(1 << self.id_width)
-        return (addr & ((1 << aw) - 1), ln, size, bt, rid)
+        return (addr & ((1 << aw) - 1), min(ln, self.len_max), size, bt, rid)
 
     def gen(self, rng, t):
         regime = (t // 128) % 5
